@@ -287,6 +287,16 @@ type ReuseTwice struct {
 	B Inner `json:"b"`
 }
 
+// ReuseOmit: the same struct type first under omitempty, then plain, then in collections.
+type ReuseOmit struct {
+	O  Inner            `json:"o,omitempty"`
+	P  Inner            `json:"p"`
+	L  []Inner          `json:"l"`
+	M  map[string]Inner `json:"m"`
+	PP *Inner           `json:"pp"`
+	Q  Inner            `json:"q"`
+}
+
 type ReuseDeep struct {
 	A  Inner   `json:"a"`
 	Bs []Inner `json:"bs"`
@@ -369,6 +379,7 @@ func init() {
 	reg[TaggedUnexported]("TaggedUnexported", true)
 	reg[ReuseTwice]("ReuseTwice", true)
 	reg[ReuseDeep]("ReuseDeep", true)
+	reg[ReuseOmit]("ReuseOmit", true)
 	reg[sub.Odd]("SubOdd", true)
 	// row types that are not records: registered struct types used as T itself
 	reg[time.Time]("RowTime", true)
